@@ -282,6 +282,8 @@ impl Aml for Package<'_> {
 impl<'a> Package<'a> {
     /// Create Package object:
     pub fn new(children: Vec<&'a dyn Aml>) -> Self {
+        // NumElements is a single byte.
+        assert!(children.len() <= u8::MAX as usize);
         Package { children }
     }
 }
